@@ -330,3 +330,36 @@ func cmdEbnfExport(args []string) error {
 func init() {
 	commands["ebnf-export"] = cmdEbnfExport
 }
+
+// ebnf-print: abstract specifications -> {id, fam, text}
+func cmdEbnfPrint(args []string) error {
+	fs := flag.NewFlagSet("ebnf-print", flag.ContinueOnError)
+	in := fs.String("in", "gen_specs.ndjson", "")
+	out := fs.String("out", "texts.ndjson", "")
+	if err := fs.Parse(args); err != nil {
+		return err
+	}
+	w, err := newNDWriter(*out)
+	if err != nil {
+		return err
+	}
+	n := 0
+	err = readNDJSON(*in, func(line []byte) error {
+		n++
+		var s ESpec
+		if err := json.Unmarshal(line, &s); err != nil {
+			return err
+		}
+		normSpec(&s)
+		text, _ := printSpec(s)
+		return w.Write(map[string]any{"id": fmt.Sprintf("%s-%d", s.Fam, n), "fam": s.Fam, "text": text})
+	})
+	if err != nil {
+		return err
+	}
+	return w.Close()
+}
+
+func init() {
+	commands["ebnf-print"] = cmdEbnfPrint
+}
